@@ -31,7 +31,7 @@ def handle (args : List String) : String :=
         let (pat, ts) ← pPat ts
         if !ts.isEmpty then none else
         let ctx : Ctx := ⟨view, none⟩
-        let run (a : List JoinAlg) := showBag (exec db (lower .dflt a pat).1 ctx [[]])
+        let run (a : List JoinAlg) := showBag (exec db (implement a (lower .dflt pat)).1 ctx [[]])
         let k := min (countJoins pat) 6
         let alts := match (variant.splitOn ":").headD "keep" with
           | "allbind" => [run (List.replicate 64 .bind)]
